@@ -127,7 +127,7 @@ CATALOGUE = [
     ("operand-types", "slist", "({S} as QStringList)"), ("operand-types", "ival", "({P_d} as int)"), ("operand-types", "bval", "({P_d} as bool)"),
     ("result-type", "ival", "({I} as void)"), ("result-type", "ival", "a.vval"), ("result-type", "sval", "a.vval"), ("result-type", "ival", "(a.vval as QString)"),
     ("result-type", "sval", "(a.vval as int)"), ("operand-types", "ival", "a.vval + 1"), ("operand-types", "bval", "a.vval == 1"),
-    ("condition", "ival", "a.vval ? 1 : 2"), ("arguments", "ival", "a.twice(a.vval)"), ("assignment", "ival", "{ a.ival = a.vval; 1 }"),
+    ("operand-types", "ival", "{ ([] as void); 1 }"), ("condition", "ival", "a.vval ? 1 : 2"), ("arguments", "ival", "a.twice(a.vval)"), ("assignment", "ival", "{ a.ival = a.vval; 1 }"),
 ]
 
 # well-typed controls built from the same vocabulary (must be accepted)
